@@ -388,6 +388,11 @@ fn boundary_probes(ctx: &Ctx, vm: &mut VM) {
     for n in ["0", "3", "4", "0x10", "0x21", "0x20", "255", "256"] {
         progs.push(format!("start: int {}\n", n));
     }
+    // instructions that jump to their own line and still terminate; a call in tail position (its return address is the
+    // procedure's own implied ret)
+    progs.push("start: mov cx, 3\nspin: loop spin\nprint reg\n".to_string());
+    progs.push("start: mov cx, 2\nmov al, 1\ncmp al, 2\nw: loopne w\nx: loope x\nprint reg\n".to_string());
+    progs.push("def r { cmp cx, 0\n je done\n sub cx, 1\n call r\n done: }\nstart: mov cx, 4\ncall r\nprint reg\n".to_string());
     // the same programs through the real driver: whatever it accepts must not end in an internal-error path (the
     // print reader is given the machine state the program has established, e.g. DS = FFFFh)
     if crate::cli::cli_available() {
